@@ -1,13 +1,16 @@
 //! E-MC harness: deviation-bounded exhaustive schedule exploration of the
 //! seam mirror of quandary (C28, C29, C32) and scripted-I/O histories (C30).
 
+mod c28;
 mod c29;
+mod c32;
 mod explore;
 #[allow(dead_code)]
 mod reftsig;
 #[allow(dead_code)]
 mod runner;
 mod sched;
+mod srv;
 #[allow(dead_code)]
 mod wire;
 
@@ -96,7 +99,7 @@ fn replay_generic<C: Clone + Send + Sync + 'static>(ctx: &Ctx, configs: Vec<C>, 
 }
 
 fn main() {
-    let ctx = Ctx::from_args(&["C29"]);
+    let ctx = Ctx::from_args(&["C28", "C29", "C32"]);
     match ctx.id.as_str() {
         "C29" => {
             let cfgs = c29::configs(ctx.quick());
@@ -114,6 +117,37 @@ fn main() {
             ctx.finish(
                 "model_checking",
                 "every schedule (thread interleaving at each lock/unlock/wait/notify/spawn/exit, plus every condvar-timeout firing) with at most k deviations (preemptions or timers landing first), k iterated 0..=bound, of each pool scenario on the unmodified thread.rs; oracle: accepted tasks run exactly once and before await_shutdown returns, rejected never run, post-shutdown submissions rejected, no deadlock/livelock. states = choice points of the schedule tree, transitions = scheduling steps, traces_validated_against_impl = schedules executed on the real code",
+                true,
+            );
+        }
+        "C28" => {
+            if ctx.replay_case().is_some() {
+                replay_generic(&ctx, c28::configs(false), |c| c.label(), |c| c28::body(c));
+                ctx.finish("model_checking", "replay of one recorded schedule", false);
+            }
+            let quick = ctx.quick();
+            let (mb, pb): (u32, &[u64]) = if quick { (3, &[2_000, 4_000, 20_000]) } else { (5, &[100_000, 200_000, 400_000, 400_000, 200_000]) };
+            drive(&ctx, c28::configs(quick), |c| c.label(), |c| c.to_json(), mb, pb, 40_000_000, |c| c28::body(c));
+            ctx.assume("sequentially consistent interleavings at lock operations; the RRL bucket is the only shared mutable state and sits behind a Mutex; virtual clock frozen (all requests within one second)");
+            ctx.assume("the property's '16 OS threads' is answered by the small-scope argument: a lost or double-counted update needs two threads on one bucket and one preemption; 2-3 threads x 1-2 requests are explored exhaustively up to the stated deviation bound");
+            ctx.finish(
+                "model_checking",
+                "every schedule with at most k preemptions (k iterated from 0) of T threads x k identical UDP queries of one stream through the mirrored Server with RRL (limit = rate*window in {1,2,3,4}, slip 0/1, table size 1/7); oracle: exactly min(T*k, limit) full answers, the rest dropped (slip 0) or slipped (slip 1). states = choice points, transitions = scheduling steps, traces_validated_against_impl = schedules executed on the real code",
+                true,
+            );
+        }
+        "C32" => {
+            if ctx.replay_case().is_some() {
+                replay_generic(&ctx, c32::configs(false), |c| c.label(), |c| c32::body(c));
+                ctx.finish("model_checking", "replay of one recorded schedule", false);
+            }
+            let quick = ctx.quick();
+            let (mb, pb): (u32, &[u64]) = if quick { (3, &[2_000, 4_000, 20_000]) } else { (5, &[100_000, 200_000, 400_000, 400_000, 200_000]) };
+            drive(&ctx, c32::configs(quick), |c| c.label(), |c| c.to_json(), mb, pb, 40_000_000, |c| c32::body(c));
+            ctx.assume("sequentially consistent interleavings at RwLock operations (catalog and key set are each behind an RwLock<Arc<_>>)");
+            ctx.finish(
+                "model_checking",
+                "every schedule with at most k preemptions (k iterated from 0) of 1-2 plain queriers, 0-2 TSIG-signing queriers and a swapper (set_catalog / set_tsig_keys to generation 2, then its own query) on the mirrored Server; oracle: every response carries one single generation in all sections, requests started after a swap returned see the new data, a signed exchange is verified and signed under one secret. states = choice points, transitions = scheduling steps, traces_validated_against_impl = schedules executed",
                 true,
             );
         }
